@@ -84,11 +84,11 @@ def _params_concrete(kind, coef, exp, pv):
     return _rt(top)
 
 
-@harness("C11", args="w: int, bot: int, top: int, shape: int", pre=["1 <= w", "0 <= bot < top <= w", "0 <= shape <= 5"],
-         tiers={"quick": {"timeout": 150, "pre": ["w <= 4"], "parts": parts_over("shape", range(6))},
-                "thorough": {"timeout": 600, "pre": ["w <= 7"], "parts": parts_product(parts_over("shape", range(6)), parts_over("w", range(1, 8)))}},
+@harness("C11", args="w: int, bot: int, top: int, shape: int", pre=["1 <= w", "0 <= bot < top <= w", "0 <= shape <= 6"],
+         tiers={"quick": {"timeout": 150, "pre": ["w <= 4"], "parts": parts_over("shape", range(7))},
+                "thorough": {"timeout": 600, "pre": ["w <= 7"], "parts": parts_product(parts_over("shape", range(7)), parts_over("w", range(1, 8)))}},
          sample=(4, 1, 3, 2),
-         bounds="bus width w<=4 (quick) / <=7; every slice [bot:top); shapes: slice, concat(slice, signal), concat(signal, slice, bit), nested concat, reversed / strided slices among plain parts, nested concat with reversed-strided slices",
+         bounds="bus width w<=4 (quick) / <=7; every slice [bot:top); shapes: slice, concat(slice, signal), concat(signal, slice, bit), nested concat, reversed / strided slices among plain parts, nested concat with reversed-strided slices, one-part concatenations (of a slice, and of a signal on a second port)",
          generalises="width and slice bounds (inclusive/exclusive top conversion, part order)", outside="")
 def slices_roundtrip(w, bot, top, shape):
     env.reset_all()
@@ -107,11 +107,13 @@ def slices_roundtrip(w, bot, top, shape):
     elif shape == 4:  # reversed / strided slices among plain parts (resolve to their bits: the result must stay one flat concatenation)
         e = h.Concat(x[bot:top][::-1], y, x[::2])
         wd = e.width
-    else:
+    elif shape == 5:
         e = h.Concat(y, h.Concat(x[::-2], x[bot:top]), x[top - 1::-1])
         wd = e.width
-    E = h.ExternalModule(name="E", port_list=[h.Port(name="p", width=wd)], paramtype=dict)
-    m.u = E({})(p=e)
+    else:  # one-part concatenations: of a slice, and (second port) of a whole signal
+        e, wd = h.Concat(x[bot:top]), n
+    E = h.ExternalModule(name="E", port_list=[h.Port(name="p", width=wd), h.Port(name="q", width=1)], paramtype=dict)
+    m.u = E({})(p=e, q=h.Concat(y) if shape == 6 else y)
     return _rt(m)
 
 
